@@ -9,6 +9,7 @@ From ClapModel Require Import ParseProofs.Actions ParseProofs.Unparse ParseProof
                               ParseProofs.UnparseExamples.
 From ClapModel Require Import Base.Utf8 Lex.OsStrExtModel Lex.OsStrExtProofs ParseProofs.UnparseLift.
 From ClapModel Require Import ParseProofs.UnparseX ParseProofs.UnparseXProofs ParseProofs.UnparseXTree ParseProofs.UnparseXExamples.
+From ClapModel Require Import ParseProofs.Globals ParseProofs.UnparseGlobals.
 From Coq Require Import ZArith Sorting.Sorted Sorting.Permutation List.
 Import ListNotations.
 Open Scope N_scope.
@@ -589,3 +590,55 @@ Theorem C02_terminator_nonvacuous :
     idx_of [116] (mt st) = Some [2] /\ idx_of [102] (mt st) = Some [3].
 Proof. split; [exact XEx.ex_term_hyps|exact XEx.ex_term_parse]. Qed.
 Print Assumptions C02_terminator_nonvacuous.
+
+(** (4) COMPOSITION WITH THE MERGE OF GLOBAL VALUES (ParseProofs/UnparseGlobals.v; the merge's closed form is C09's).
+    For a rendered tree WITH global arguments whose meaning succeeds, [parse_top] returns the matches of the
+    meaning with ONE final map inserted at every level: [merged_map] = C09's [final_vm] over the ids
+    [get_used_global_args] collects ([merged_ids]), folded down the levels of the meaning. *)
+Theorem C02_unparse_globals : forall c0 bin i st, is_set s_no_binary_name c0 = false ->
+  valid (with_bin c0 bin) = true -> wf_inv (build_self (with_bin c0 bin)) i = true ->
+  run_inv (build_self (with_bin c0 bin)) i = ROk st ->
+  parse_top c0 (bin :: render_inv i) =
+  OOk (ins_levels (merged_map (with_bin c0 bin) (into_inner (mt st))) (into_inner (mt st))).
+Proof. exact parse_top_merged. Qed.
+Print Assumptions C02_unparse_globals.
+
+Theorem C02_unparse_globals_x : forall c0 bin i st, is_set s_no_binary_name c0 = false ->
+  valid (with_bin c0 bin) = true -> wfx_inv (build_self (with_bin c0 bin)) i = true ->
+  run_inv (build_self (with_bin c0 bin)) i = ROk st ->
+  parse_top c0 (bin :: render_inv i) =
+  OOk (ins_levels (merged_map (with_bin c0 bin) (into_inner (mt st))) (into_inner (mt st))).
+Proof. exact parse_top_merged_x. Qed.
+Print Assumptions C02_unparse_globals_x.
+
+(** what that result holds, level by level and key by key: the final map has pairwise distinct keys, all of them
+    merged ids; its entry for a merged id is [pick] over the chain's own entries for that id (C09: the most
+    explicit source, the deepest level among equals); chain and number of levels are the meaning's; a level of
+    the result answers a key with the final map's entry if there is one, otherwise with the meaning's own entry. *)
+Theorem C02_merged_levels : forall c0 m,
+  let vmF := merged_map c0 m in
+  NoDup (map fst vmF) /\
+  (forall g, mem_id g (merged_ids c0 m) = false -> fm_get g vmF = None) /\
+  (forall g, fm_get g vmF = if mem_id g (merged_ids c0 m) then pick None (map (fm_get g) (levels m)) else None) /\
+  chain (ins_levels vmF m) = chain m /\
+  levels (ins_levels vmF m) = map (ins_all vmF) (levels m) /\
+  (forall lv k, fm_get k (ins_all vmF lv) = match fm_get k vmF with Some e => Some e | None => fm_get k lv end).
+Proof. exact merged_levels. Qed.
+Print Assumptions C02_merged_levels.
+
+(** Non-vacuity: [prog --gl=R -q run --gl=S -x] with [--gl] global: the meaning has R at the root and S in the
+    subcommand; [parse_top] reports S at both levels and leaves the other entries alone. *)
+Theorem C02_unparse_globals_nonvacuous :
+  (is_set s_no_binary_name GlobEx.c0 = false /\ valid (with_bin GlobEx.c0 GlobEx.bin) = true /\ wf_inv GlobEx.c GlobEx.ginv = true /\
+   no_globals (build_recursive (S (S (depth GlobEx.c))) (with_bin GlobEx.c0 GlobEx.bin)) = false /\
+   render_inv GlobEx.ginv = [[45; 45; 103; 108; 61; 82]; [45; 113]; [114; 117; 110]; [45; 45; 103; 108; 61; 83]; [45; 120]]) /\
+  exists st sm, run_inv GlobEx.c GlobEx.ginv = ROk st /\
+    GlobEx.raw_of [103; 108] (into_inner (mt st)) = Some [[[82]]] /\ ms_sub (into_inner (mt st)) = Some ([114; 117; 110], sm) /\
+    GlobEx.raw_of [103; 108] sm = Some [[[83]]] /\
+    merged_ids (with_bin GlobEx.c0 GlobEx.bin) (into_inner (mt st)) = [[103; 108]; [103; 108]] /\
+    map fst (merged_map (with_bin GlobEx.c0 GlobEx.bin) (into_inner (mt st))) = [[103; 108]] /\
+    exists mp smp, parse_top GlobEx.c0 (GlobEx.bin :: render_inv GlobEx.ginv) = OOk mp /\ ms_sub mp = Some ([114; 117; 110], smp) /\
+      GlobEx.raw_of [103; 108] mp = Some [[[83]]] /\ GlobEx.raw_of [103; 108] smp = Some [[[83]]] /\
+      GlobEx.raw_of [113] mp = Some [[s_true]] /\ GlobEx.raw_of [120] smp = Some [[s_true]].
+Proof. split; [exact GlobEx.ex_hyps|exact GlobEx.ex_run]. Qed.
+Print Assumptions C02_unparse_globals_nonvacuous.
